@@ -705,7 +705,7 @@ class Interp(object):
             k = e["k"]
             if k == "deref":
                 pv = get_path(self.read_cell(st, cell), path)
-                if isinstance(pv, Opaque) and pv.kind in ("str", "string") and e is place["p"][-1]:
+                if isinstance(pv, Opaque) and pv.kind in ("str", "string", "bstr") and e is place["p"][-1]:
                     raise _StrDeref(pv)
                 if not isinstance(pv, Ptr):
                     raise Undecided("deref of %r in %s" % (pv, fr.fn_path))
@@ -739,8 +739,48 @@ class Interp(object):
         return cell, path, off
 
     def read_place(self, fr, st, place):
+        proj = place["p"]
+        if proj and proj[-1]["k"] == "index":
+            iv = self.read_cell(st, fr.locals[proj[-1]["l"]])
+            if isinstance(iv, W) and iv.val is None:
+                return self.read_symbolic_index(fr, st, place, iv)
         cell, path, _ = self.lvalue(fr, st, place)
         return get_path(self.read_cell(st, cell), path)
+
+    def read_symbolic_index(self, fr, st, place, iv):
+        """table[i] with a symbolic index whose unknown bits are few (a digit table indexed by a nibble): the element
+        as a multiplexer over the possible index values (the bounds check precedes the access in MIR)"""
+        bits = iv.all_bits()
+        if any(b is None for b in bits):
+            raise Undecided("symbolic index in %s" % fr.fn_path)
+        free = [k for k, b in enumerate(bits) if b[0]]
+        if len(free) > 6:
+            raise Undecided("symbolic index in %s" % fr.fn_path)
+        base = sum(1 << k for k, b in enumerate(bits) if not b[0] and b[1])
+        cell, path, off = self.lvalue(fr, st, dict(l=place["l"], p=place["p"][:-1]))
+        cont = get_path(self.read_cell(st, cell), path)
+        n = len(cont.elems) if isinstance(cont, Arr) else None
+        if n is None:
+            raise Undecided("symbolic index into %r" % (cont,))
+        out = None
+        width = None
+        for r_ in range(1 << len(free)):
+            idx = base + sum(1 << free[j] for j in range(len(free)) if (r_ >> j) & 1)
+            if off + idx >= n:
+                continue
+            e = cont.elems[off + idx]
+            if not isinstance(e, W):
+                raise Undecided("symbolic index over non-integer elements")
+            sel = ONE
+            for j, k in enumerate(free):
+                sel = B.band(sel, bits[k] if (r_ >> j) & 1 else B.bnot(bits[k]))
+            width = e.width
+            eb = e.all_bits()
+            cur = [B.band(sel, x) for x in eb]
+            out = cur if out is None else [B.bor(x, y) for x, y in zip(out, cur)]
+        if out is None:
+            raise Undecided("symbolic index out of range in %s" % fr.fn_path)
+        return W(width, bits=out)
 
     def write_place(self, fr, st, place, v):
         cell, path, _ = self.lvalue(fr, st, place)
@@ -860,7 +900,7 @@ class Interp(object):
                 pv = self.read_place(fr, st, inner)
                 if isinstance(pv, Ptr):
                     return Ptr(pv.cell, pv.path, pv.sl, "ref")
-                if isinstance(pv, Opaque) and pv.kind in ("str", "string"):
+                if isinstance(pv, Opaque) and pv.kind in ("str", "string", "bstr"):
                     return pv
             return Ptr(cell, path)
         if k == "copy_for_deref":
@@ -881,7 +921,7 @@ class Interp(object):
             if op == "PtrMetadata":
                 if isinstance(a, Ptr):
                     return wconst(64, self.slice_len(st, a))
-                if isinstance(a, Opaque) and a.kind == "str":
+                if isinstance(a, Opaque) and a.kind in ("str", "bstr"):
                     return a.data[1] if len(a.data) > 1 else wconst(64, len(a.data[0]))
                 raise Undecided("PtrMetadata of %r" % (a,))
             raise Undecided("unop " + op)
